@@ -120,11 +120,15 @@ def run(shard, ctx):
             firsts = [n for n in names if n[0] == L]
             firsts = firsts[shard["half"]::2]
         octs = shard["octaves"]
-        seconds = [(n, o, Note(n, o), model_int(n, o)) for n in names for o in octs]
+        # (channels and velocities differ from note to note: comparisons are about pitch alone)
+        seconds = [(n, o, Note(n, o, velocity=(7 * k) % 128, channel=k % 16), model_int(n, o)) for k, (n, o) in
+                   enumerate((n, o) for n in names for o in octs)]
         cnt = 0
         for n in firsts:
             for o in octs:
                 a = Note(n, o)
+                if (len(n) + o) % 3 == 0:
+                    a.set_channel(9), a.set_velocity(100)
                 ia = model_int(n, o)
                 for (n2, o2, b, ib) in seconds:
                     for sym, op in OPS:
